@@ -301,7 +301,7 @@ package raft
 //@ func Raft.nextConfiguration
 //@   flags lockheld
 //@   requires [next-nonnil] next != nil
-//@   requires [pre-nonnil] r.configuration != nil && r.followers != nil && r.operationManager != nil && r.logger != nil
+//@   requires [pre-nonnil] r.configuration != nil && r.followers != nil && r.operationManager != nil && r.operationManager.leaderLease != nil && r.logger != nil
 //@   requires [pre-I6b] forall fid string :: fid in r.followers ==> r.followers[fid] != nil
 //@   ensures [config] r.configuration == next
 //@   ensures [I6b] forall fid string :: fid in r.followers ==> r.followers[fid] != nil
